@@ -43,5 +43,6 @@ PointOk(prev, cur, c0) ==
    ELSE IF cur.size = prev.size THEN TRUE
    ELSE cur.steps <= ((cur.size + prev.size - 1) \div prev.size) * prev.steps + c0 + Slack
 \* a fixed input costs the same however many inputs were parsed before (first parse: lazy imports and registries, hence >=)
-HistoryOk(first, cur) == cur.out # first.out \/ cur.steps <= first.steps + Slack
+HistorySlack == 40     \* LINE counts are deterministic: a fixed input takes the same lines every time (a few more on a cold first call)
+HistoryOk(first, cur) == cur.out # first.out \/ cur.steps <= first.steps + HistorySlack
 =============================================================================
